@@ -243,14 +243,23 @@ func (gs *guardState) edgeAlternatives(b *cfg.Block, i int, s factSet) [][]strin
 				return [][]string{nil}
 			}
 		}
-		return gs.condAlternatives(last, pol)
+		return gs.withAliases(s, gs.condAlternatives(last, pol))
 	case cfg.KindSwitchCaseBody:
 		cc, _ := t.Stmt.(*ast.CaseClause)
 		if sw, _ := gs.caseOf[cc].(*ast.SwitchStmt); sw != nil && sw.Tag == nil {
-			return gs.condAlternatives(last, pol)
+			return gs.withAliases(s, gs.condAlternatives(last, pol))
 		}
 	}
 	return [][]string{gs.edgeFacts(b, i, s)}
+}
+
+// withAliases adds, to every alternative, the facts that follow for paths a tested local is a live snapshot of.
+func (gs *guardState) withAliases(s factSet, alts [][]string) [][]string {
+	out := make([][]string, len(alts))
+	for i, a := range alts {
+		out[i] = gs.expandMarkers(s, a)
+	}
+	return out
 }
 
 func (gs *guardState) condAlternatives(cond ast.Expr, pol bool) [][]string {
